@@ -41,6 +41,8 @@ type c08Case struct {
 	Opts    udOpts  `json:"opts"`
 	Synth   bool    `json:"synthetic,omitempty"` // bounded-exhaustive allocation arm
 	CLI     bool    `json:"cli,omitempty"`
+	QCSV    bool    `json:"query_csv,omitempty"`  // C08: give --query as the updown-list CSV of the same alignment
+	TCSV    bool    `json:"target_csv,omitempty"` // C08: give --target as CSV
 }
 
 const (
@@ -252,7 +254,24 @@ func parseTopRanking(out string, table bool, queries []FaRec) (map[string]*udRow
 
 func checkC08(c c08Case, o *Obs) error {
 	qTxt, tTxt := fa(c.Queries...), fa(c.Targets...)
-	out, err := runTopRanking(c, "fasta", "fasta", qTxt, tTxt)
+	qType, tType := "fasta", "fasta"
+	qIn, tIn := qTxt, tTxt
+	if c.QCSV {
+		csv, err := udListCSV(c.Ref, c.Queries)
+		if err != nil {
+			return err
+		}
+		qType, qIn = "csv", csv
+	}
+	if c.TCSV {
+		csv, err := udListCSV(c.Ref, c.Targets)
+		if err != nil {
+			return err
+		}
+		tType, tIn = "csv", csv
+	}
+	o.Label("inputs:" + qType + "/" + tType)
+	out, err := runTopRanking(c, qType, tType, qIn, tIn)
 	if err != nil {
 		return err
 	}
@@ -569,12 +588,20 @@ func genUDOpts(t *rapid.T, targets []FaRec, width int) udOpts {
 	return o
 }
 
+// hugeRows enables the >64 KiB row class (set by the C09 generator only: the csv path is what it is about).
+var hugeRows bool
+
 func genUDInput(t *rapid.T, minQueries int, iupacRef bool) (ref string, queries, targets []FaRec) {
 	w := rapid.IntRange(6, 30).Draw(t, "width")
 	wide := rapid.IntRange(0, 7).Draw(t, "wide") == 0
 	if wide {
 		// wide alignments: room for dozens of separate ambiguity tracts per sequence
 		w = rapid.IntRange(66, 240).Draw(t, "wideWidth")
+	}
+	if hugeRows && rapid.IntRange(0, 2499).Draw(t, "hugeRow") == 0 {
+		// very wide and very divergent: the updown-list row of a sequence grows beyond 64 KiB
+		wide = true
+		w = rapid.SampledFrom([]int{11000, 12000, 13000}).Draw(t, "hugeWidth")
 	}
 	ref = genACGT(t, w, "refBase")
 	if iupacRef && rapid.IntRange(0, 2).Draw(t, "refIupac") == 0 {
@@ -597,6 +624,19 @@ func genUDInput(t *rapid.T, minQueries int, iupacRef bool) (ref string, queries,
 		queries = append(queries, FaRec{ID: fmt.Sprintf("q%d", i), Seq: genUDSeq(t, ref, pool, "")})
 	}
 	nt := rapid.IntRange(1, 20).Draw(t, "nt")
+	if w > 10000 {
+		// every other column a SNP in some sequences (the pepper step below adds the ambiguity tracts)
+		nt = rapid.IntRange(2, 3).Draw(t, "ntHuge")
+		for i := range queries {
+			if rapid.Bool().Draw(t, "divergentQuery") {
+				b := []byte(queries[i].Seq)
+				for p := 0; p < w; p += 2 {
+					b[p] = transitionOf(ref[p])
+				}
+				queries[i].Seq = string(b)
+			}
+		}
+	}
 	for i := 0; i < nt; i++ {
 		parent := ""
 		switch rapid.IntRange(0, 3).Draw(t, "parent") {
@@ -610,6 +650,15 @@ func genUDInput(t *rapid.T, minQueries int, iupacRef bool) (ref string, queries,
 		seq := genUDSeq(t, ref, pool, parent)
 		if parent != "" && rapid.IntRange(0, 2).Draw(t, "exactCopy") == 0 {
 			seq = parent
+		}
+		if w > 10000 && i%2 == 0 {
+			b := []byte(seq)
+			for p := i % 3; p < w; p += 2 {
+				if isACGT(ref[p]) {
+					b[p] = transitionOf(ref[p])
+				}
+			}
+			seq = string(b)
 		}
 		targets = append(targets, FaRec{ID: fmt.Sprintf("t%d", i), Seq: seq})
 	}
@@ -647,6 +696,11 @@ func genC08(t *rapid.T) c08Case {
 	c.Ref, c.Queries, c.Targets = genUDInput(t, 1, false)
 	c.Opts = genUDOpts(t, c.Targets, len(c.Ref))
 	c.CLI = rapid.IntRange(0, 19).Draw(t, "cli") == 0
+	if rapid.IntRange(0, 2).Draw(t, "mixedInputs") == 0 {
+		c.QCSV = rapid.Bool().Draw(t, "queryCSV")
+		c.TCSV = rapid.Bool().Draw(t, "targetCSV")
+		c.CLI = false // the command-line arm writes fasta files
+	}
 	return c
 }
 
